@@ -40,6 +40,13 @@ func c11QueueProgram(o *fw.Obs, d *dag, mode string, rng *rand.Rand) {
 			heads = append(heads, d.sums[h])
 		}
 	}
+	if rng.Intn(3) == 0 && len(heads) > 0 {
+		// several refs on one commit: the same head named more than once
+		heads = append(heads, heads[rng.Intn(len(heads))])
+		if rng.Intn(2) == 0 {
+			heads = append([][]byte{heads[len(heads)-1]}, heads...)
+		}
+	}
 	q, err := ref.NewCommitsQueue(d.db, heads)
 	if err != nil {
 		o.Violate("error/CommitsQueue/"+mode, "NewCommitsQueue: %v", err)
